@@ -78,3 +78,75 @@ Definition frozen_ok (frozen : list nat) (p : list (call Q)) : bool :=
 
 (** the implementation raised: the model must refuse as well *)
 Definition check_refusal (c : list (call Q) * list lcall) : bool * Z := (is_error_prog (fst c), 0%Z).
+
+(** ** DemesUtil.slice: the graph the real code returns (as `demes` resolves it) against the model's [slice], and the
+    conclusion of slice_preserves_size_functions evaluated on the Q instance *)
+Definition opt_max (a b : option Q) : option Q :=
+  match a, b with Some x, Some y => Some (Qmax2 x y) | _, _ => None end.
+Definition time_err (a b : time Q) : option Q :=
+  match a, b with Inf, Inf => Some 0 | Fin x, Fin y => Some (rel_err x y) | _, _ => None end.
+Fixpoint list_err {A} (f : A -> A -> option Q) (a b : list A) : option Q :=
+  match a, b with
+  | [], [] => Some 0
+  | x :: a', y :: b' => opt_max (f x y) (list_err f a' b')
+  | _, _ => None
+  end.
+Definition epoch_err (m l : epoch Q) : option Q :=
+  if sfun_eqb (e_fn m) (e_fn l)
+  then opt_max (time_err (e_start m) (e_start l))
+               (Some (Qmax2 (rel_err (e_end m) (e_end l)) (Qmax2 (rel_err (e_s0 m) (e_s0 l)) (rel_err (e_s1 m) (e_s1 l)))))
+  else None.
+Definition deme_err (m l : deme Q) : option Q :=
+  if Nat.eqb (d_id m) (d_id l) && list_eqb (d_anc m) (d_anc l)
+  then opt_max (time_err (d_start m) (d_start l)) (list_err epoch_err (d_epochs m) (d_epochs l))
+  else None.
+Definition mig_err (m l : mig Q) : option Q :=
+  if Nat.eqb (m_src m) (m_src l) && Nat.eqb (m_dst m) (m_dst l)
+  then opt_max (time_err (m_start m) (m_start l)) (Some (Qmax2 (rel_err (m_end m) (m_end l)) (rel_err (m_rate m) (m_rate l))))
+  else None.
+Definition pulse_err (m l : pulse Q) : option Q :=
+  if list_eqb (p_srcs m) (p_srcs l) && Nat.eqb (p_dst m) (p_dst l)
+  then opt_max (Some (rel_err (p_time m) (p_time l))) (max_rel (p_props m) (p_props l))
+  else None.
+Definition graph_err (m l : graph Q) : option Q :=
+  opt_max (list_err deme_err (g_demes m) (g_demes l))
+          (opt_max (list_err mig_err (g_migs m) (g_migs l)) (list_err pulse_err (g_pulses m) (g_pulses l))).
+
+(** a size probe: (deme, time u in the sliced graph, the size the real sliced graph reports there);
+    a migration probe: (source, destination, u, the rate in force in the real sliced graph) *)
+Definition size_probe_err (g gs : graph Q) (t : Q) (p : nat * Q * Q) : option Q :=
+  let '(id, u, v) := p in
+  match find_deme g id, find_deme gs id with
+  | Some d, Some d' =>
+    match deme_size_at d (Qred (u + t)), deme_size_at d' u with
+    | Some a, Some a' => Some (Qmax2 (rel_err a v) (rel_err a a'))
+    | _, _ => None
+    end
+  | _, _ => None
+  end.
+Definition mig_probe_err (g gs : graph Q) (t : Q) (p : nat * nat * Q * Q) : option Q :=
+  let '(src, dst, u, v) := p in
+  let a := mig_rate_at g src dst (Qred (u + t)) in
+  Some (Qmax2 (rel_err a v) (rel_err a (mig_rate_at gs src dst u))).
+
+Fixpoint probes_err {A} (f : A -> option Q) (k : Z) (l : list A) (acc : Q) : bool * Q * Z :=
+  match l with
+  | [] => (true, acc, k)
+  | p :: l' => match f p with Some e => probes_err f (k + 1) l' (Qmax2 e acc) | None => (false, acc, k) end
+  end.
+
+(** case: (resolved graph, slice time, graph returned by the real DemesUtil.slice, size probes, migration probes).
+    (true, log2 err) | (false, 1000): the sliced graphs differ in structure | (false, 2000 + k): size probe k is
+    undefined on the model side | (false, 3000 + k): migration probe k *)
+Definition check_slice (tol : Q)
+           (c : graph Q * Q * graph Q * list (nat * Q * Q) * list (nat * nat * Q * Q)) : bool * Z :=
+  let '(g, t, lg, sp, mp) := c in
+  let gs := slice g t in
+  match graph_err gs lg with
+  | None => (false, 1000%Z)
+  | Some e0 =>
+    let '(ok1, e1, k1) := probes_err (size_probe_err g gs t) 0 sp e0 in
+    if negb ok1 then (false, (2000 + k1)%Z) else
+    let '(ok2, e2, k2) := probes_err (mig_probe_err g gs t) 0 mp e1 in
+    if negb ok2 then (false, (3000 + k2)%Z) else (Qle_bool e2 tol, Qlog2 e2)
+  end.
